@@ -389,7 +389,7 @@ package engine
 //@   let isProbe = ptype == packet.PING && ret((*strings.Builder).String, 1) == "probe"
 //@   let isUpgrade = !isProbe && ptype == packet.UPGRADE && old(s.ReadyState()) != "closed"
 //@   ensures [C08.probe.pong]  isProbe ==> calls(transports.Transport.Send) == 1 && arg(transports.Transport.Send, 1, this) == cand && len(arg(transports.Transport.Send, 1, packets)) == 1 && arg(transports.Transport.Send, 1, packets)[0].Type == packet.PONG
-//@   ensures [C08.probe.event] isProbe ==> emitted(s.EventEmitter, "upgrading") == 1 && calls(utils.SetInterval) == 1 && calls(utils.ClearInterval) == 1 && before(utils.ClearInterval, 1, utils.SetInterval, 1)
+//@   ensures [C08.probe.event,C09.notimerleak] isProbe ==> emitted(s.EventEmitter, "upgrading") == 1 && calls(utils.SetInterval) == 1 && calls(utils.ClearInterval) == 1 && before(utils.ClearInterval, 1, utils.SetInterval, 1)
 //@   ensures [C08.probe.kept]  isProbe ==> calls(cleanup) == 0 && calls((*socket).setTransport) == 0 && calls((*socket).clearTransport) == 0 && calls((*socket).OnClose) == 0 && calls(transports.Transport.Close) == 0 && calls(transports.Transport.Discard) == 0
 //@   ensures [C08.switch]      isUpgrade ==> calls(cleanup) == 1 && calls(transports.Transport.Discard) == 1 && calls((*socket).clearTransport) == 1 && calls((*socket).setTransport) == 1 && arg((*socket).setTransport, 1, transport) == cand && emitted(s.EventEmitter, "upgrade") == 1 && calls((*socket).flush) == 1
 //@   ensures [C08.switch.order] isUpgrade ==> before(cleanup, 1, transports.Transport.Discard, 1) && before(transports.Transport.Discard, 1, (*socket).clearTransport, 1) && before((*socket).clearTransport, 1, (*socket).setTransport, 1) && before((*socket).setTransport, 1, (*socket).flush, 1)
